@@ -16,7 +16,7 @@
 
 double sc_time_stamp() { return 0; }
 
-constexpr size_t RESET_BEGIN = 1;
+constexpr size_t RESET_BEGIN = 0;
 constexpr size_t RESET_END = 10;
 
 hex::HexSimIO io(std::cin, std::cout);
@@ -128,7 +128,7 @@ int run(const std::unique_ptr<VerilatedContext> &contextp,
                      % instr;
     }
     // Handle syscalls
-    if (top->i_clk && top->o_syscall_valid) {
+    if (top->i_clk && contextp->time() > RESET_END && top->o_syscall_valid) {
       auto syscall = static_cast<hex::Syscall>(top->o_syscall);
       handleSyscall(syscall, top, exitCode, trace);
       if (syscall == hex::Syscall::EXIT) {
